@@ -1,4 +1,5 @@
 """C09 TLV codec: bounded length field, reader guards, header form, exact tiling."""
+import re
 from ksirules.bounds import length_guard, unguarded_reads
 from ksirules.flow import (Guard, SWAP, g_cmp, g_ok, must_pass, ok_return_witness, path_lines, provenance, stores_through_param,
                            stores_to_field)
@@ -49,6 +50,7 @@ def run(prog, chk):
     buffer_tables(prog, chk)
     remap_table(prog, chk)
     element_split_table(prog, chk)
+    work_buffer_rule(prog, chk)
     refused_mutation(prog, chk)
     _run(prog, chk)
 
@@ -492,3 +494,47 @@ def element_split_table(prog, chk):
             what = "expected a refusal (the last %d octet(s) are no element) and the element left unexpanded; source: status %s, children %s, list attached %s, offered to the parser (offset, length) %s" % (
                 stray, hex(q.ret) if isinstance(q.ret, int) else q.ret, appended, sub, offered)
         chk.ob("C09.elsplit", inst, ok, what, loc=fn.loc(), fn=fn, nontrivial=stray > 0)
+
+
+def work_buffer_rule(prog, chk, rule="C09.workbuf"):
+    """A local array handed, together with its sizeof, to something that writes one serialized element into it must hold the largest
+    element the format allows (payload 0xffff, plus the 4-octet header unless the payload alone is written): the same object is
+    serialized at several places (tree building, chain extraction, hashing, conversion) and whatever one of them accepts the others
+    must be able to write."""
+    chk.rule(rule, "scratch buffers for one serialized element hold the largest element (0xffff payload + header)", floor=6)
+    SER = re.compile(r"^(KSI_TlvElement_serialize|KSI_TLV_serialize_ex|KSI_TLV_writeBytes|KSI_FTLV_socketRead|KSI_FTLV_fileRead|KSI_TLV_getRawValueCopy)$")
+    NOHDR = prog.const("KSI_TLV_OPT_NO_HEADER") if "KSI_TLV_OPT_NO_HEADER" in prog.enum_consts else None
+    n = 0
+    for fn in sorted(prog.all_functions(), key=lambda f: (f.unit, f.line)):
+        arrs = {}
+        for b, i, d in fn.nodes():
+            if d.get("k") == "decl":
+                m = re.match(r"^(unsigned )?char\s*\[(\d+)\]$", (d.get("t") or "").strip())
+                if m:
+                    arrs[d["n"]] = int(m.group(2))
+        if not arrs:
+            continue
+        for b, i, c in fn.calls():
+            callee = c.get("fn")
+            member = None
+            if callee is None and isinstance(c.get("f"), dict):
+                f0 = strip(c["f"])
+                member = f0.get("f") if isinstance(f0, dict) and f0.get("k") == "mem" else None
+            if not ((callee and SER.match(callee)) or (member and re.search(r"serialize", member, re.I))):
+                continue
+            for k, a in enumerate(c["a"]):
+                a0 = strip(a)
+                if not (isinstance(a0, dict) and a0.get("k") == "var" and a0.get("n") in arrs):
+                    continue
+                sized = any(isinstance(fn.resolve(strip(x)), dict) and fn.resolve(strip(x)).get("k") == "sizeof" for x in c["a"])
+                if not sized:
+                    continue
+                payload_only = member is not None or any(is_int(fn.resolve(strip(x))) and NOHDR is not None and strip(fn.resolve(strip(x)))["v"] == NOHDR and NOHDR != 0 for x in c["a"][3:])
+                need = 0xffff if payload_only else 0xffff + 4
+                n += 1
+                chk.ob(rule, "%s:%s" % (fn.name, a0["n"]), arrs[a0["n"]] >= need,
+                       "%s[%d] receives one serialized element%s from %s: the largest one needs %d octets" % (
+                           a0["n"], arrs[a0["n"]], " (payload only)" if payload_only else "", callee or ("->" + member), need),
+                       loc=fn.loc(fn.elem_line(b, i)), fn=fn)
+    if n < 6:
+        raise AnalysisBroken("C09.workbuf: only %d scratch buffers recognised" % n)
